@@ -354,6 +354,74 @@ fn growth_case(w: i32, h: i32, xf: &Xf, op: &Op) -> Result<isize, Violation> {
     }
 }
 
+/// "the same call twice": histories a, b, (what they left open is popped), [c], x [, draw] where x
+/// repeats a or b (with the very same arguments) after an optional push or transform change c; a
+/// call that remembers anything about its previous arguments beyond the visible state differs
+/// from the fresh target here. Merging cannot reach these (after the pops the visible state is the
+/// initial one again), so they are run unmerged.
+fn same_call_twice(run: &Run, w: i32, h: i32) {
+    let alpha = alphabet(w, h);
+    let na = alpha.len();
+    let between: Vec<Option<Op>> = std::iter::once(None).chain(alpha.iter().filter(|o| matches!(o, Op::PushClip(_) | Op::PushClipRect(..) | Op::PushLayer(..) | Op::SetTransform(_))).cloned().map(Some)).collect();
+    let probe = Op::Fill(PathSpec::new(vec![POp::M(-1.0, -1.0), POp::L(w as f32 + 1.0, -0.5), POp::L(w as f32 + 1.0, h as f32 + 1.0), POp::L(-1.0, h as f32 + 0.5), POp::Z]), SrcSpec::Solid(HALF), Opts::default());
+    run.bound("the same call twice", format!("histories a, b, closing pops, [one of {} pushes / transforms], a or b again [and a surface-covering fill after a push] over the {}-call alphabet, from the distinct pattern; the last two calls are compared with a fresh target", between.len() - 1, na));
+    BASE_DISTINCT.store(true, std::sync::atomic::Ordering::SeqCst);
+    run.par(na * na, |s, l| {
+        let (a, b) = (&alpha[s / na], &alpha[s % na]);
+        let t0 = track(&[]);
+        if !enabled(&t0, a, 2) {
+            return;
+        }
+        let mut hist = vec![a.clone()];
+        if !enabled(&track(&hist), b, 2) {
+            return;
+        }
+        hist.push(b.clone());
+        // pop what is open, innermost first
+        let mut open = track(&hist).open;
+        while let Some(o) = open.pop() {
+            hist.push(match o {
+                Open::Clip(..) => Op::PopClip,
+                Open::Layer(..) => Op::PopLayer,
+            });
+        }
+        for c in &between {
+            for x in [a, b] {
+                if matches!(x, Op::PopClip | Op::PopLayer) {
+                    continue;
+                }
+                let mut h2 = hist.clone();
+                if let Some(c) = c {
+                    h2.push(c.clone());
+                }
+                h2.push(x.clone());
+                let mut checks = vec![h2.len()];
+                if matches!(x, Op::PushClip(_) | Op::PushClipRect(..) | Op::PushLayer(..) | Op::SetTransform(_)) {
+                    h2.push(probe.clone());
+                    checks.push(h2.len());
+                }
+                for n in checks {
+                    l.states += 1;
+                    l.transitions += 1;
+                    l.traces += 1;
+                    l.evals += 1;
+                    match check_last(w, h, &h2[..n]) {
+                        Ok(k) => {
+                            l.outcome(k);
+                            l.nontrivial += 1;
+                        }
+                        Err(v) => {
+                            run.report(700_000 + s, v);
+                            break;
+                        }
+                    }
+                }
+            }
+        }
+    });
+    BASE_DISTINCT.store(false, std::sync::atomic::Ordering::SeqCst);
+}
+
 fn no_growth(run: &Run, w: i32, h: i32) {
     let alpha = alphabet(w, h);
     run.bound("no growth under repetition", format!("each of the {} alphabet calls (pushes with their pop) x 3 transforms: 64 warm-up repetitions, then 256 more on the same target; live heap bytes of the thread must not grow by more than 4 KiB", alpha.len()));
@@ -516,6 +584,7 @@ impl Check for C10 {
         run.rule("histories over a 43-call alphabet (fills of very different vertical extents, off-surface and degenerate paths, paths without MoveTo / without Close, curves, clip pushes of on/off-surface paths, clip rect, pops, zero-width and dashed strokes, singular / identity / fractional transforms, clear, fast-path fill_rect, a transparent fill_rect, layers (one composited with Src), a surface copy) are explored exhaustively; every transition is compared with the same call on a fresh target holding the same visible state (open layers re-established by replaying their draws, and a second time by pushing them and copying their pixels in; for histories of length <= 2, and pops of length 3, the fresh target lives on a fresh thread); non-trivial = history contains at least two drawing calls");
         run.assume("merging: two histories with equal (all buffers, transform, clip stack, layer stack, rasteriser idle flag, hidden path cursor) differ at most in the rasteriser's arena address and cur_y, both re-initialised before use; keys are 64-bit hashes");
         no_growth(run, 4, 4);
+        same_call_twice(run, 4, 4);
         if q {
             explore(run, 4, 4, false, 3, 4);
             explore(run, 4, 4, true, 3, 3);
